@@ -5,13 +5,13 @@ package main
 
 import (
 	"bufio"
-	"regexp"
 	"bytes"
 	"fmt"
 	"io"
 	"math/big"
 	"os"
 	"os/exec"
+	"regexp"
 	"strings"
 	"sync"
 	"sync/atomic"
@@ -361,7 +361,7 @@ type Solver struct {
 	nframe  int
 	sticky  [][2]string
 	defs    map[string]defEntry // definition cache: normalised term -> name (valid while its frame is on the stack)
-	decls   []string        // declarations are global: they survive pop (global-declarations)
+	decls   []string            // declarations are global: they survive pop (global-declarations)
 	gdecl   map[string]bool
 	cmd     *exec.Cmd
 	in      io.WriteCloser
